@@ -6,7 +6,7 @@
     boundary, full-range noise. *)
 From Coq Require Import ZArith List Lia Bool.
 From SF Require Import Bits Endian PcmConv ConvProofs Stream StreamProofs.
-From SF Require Dpcm DpcmProofs.
+From SF Require Dpcm DpcmProofs Sds SdsProofs.
 Import ListNotations.
 Local Open Scope Z_scope.
 
@@ -69,6 +69,17 @@ Example c01_dpcm_witness :
   /\ fst (Dpcm.run_calls Dpcm.s2dles 0 [[-32768; 32767]; [-32768]]) = [-32768; -1; 1].
 Proof. split; reflexivity. Qed.
 
+(** the 7-bit sample packing of src/sds.c, concretely (sds_{2,3,4}byte_write / _read per sample, K-tied through SDS files): an int comes back with
+    exactly its top 14 / 21 / 28 bits, so the three subtypes the container offers are lossless for ints whose low 24 / 16 / 8 bits are zero *)
+Theorem sds_pack_roundtrip : forall s, SdsProofs.is_int32 s ->
+  Sds.unpack (Sds.pack2 s) = s / 2 ^ 18 * 2 ^ 18 /\ Sds.unpack (Sds.pack3 s) = s / 2 ^ 11 * 2 ^ 11 /\ Sds.unpack (Sds.pack4 s) = s / 2 ^ 4 * 2 ^ 4.
+Proof. intros s R. repeat split; [apply SdsProofs.sds2_roundtrip | apply SdsProofs.sds3_roundtrip | apply SdsProofs.sds4_roundtrip]; exact R. Qed.
+Theorem sds_lossless_for_the_subtype : forall s, SdsProofs.is_int32 s ->
+  (s mod 2 ^ 24 = 0 -> Sds.unpack (Sds.pack2 s) = s) /\ (s mod 2 ^ 16 = 0 -> Sds.unpack (Sds.pack3 s) = s) /\ (s mod 2 ^ 8 = 0 -> Sds.unpack (Sds.pack4 s) = s).
+Proof. intros s R. repeat split; intros M; [apply SdsProofs.sds_lossless_8 | apply SdsProofs.sds_lossless_16 | apply SdsProofs.sds_lossless_24]; assumption. Qed.
+Example c01_sds_witness : Sds.pack3 (-2147483648) = [0; 0; 0] /\ Sds.pack3 2147418112 = [127; 127; 96] /\ Sds.unpack [127; 127; 96] = 2147418112.
+Proof. repeat split; reflexivity. Qed.
+
 Example c01_witness :
   rd_short P24 (wr_short P24 (-32768)) = -32768 /\ rd_int P16 (wr_int P16 (-2147483648)) = -2147483648 /\
   read_all (fun b => b) (written_file 3 (fun b => b) [[1; 2]; [3; 4; 5; 6]; [7]]) = [1; 2; 3; 4; 5; 6; 7; 0; 0].
@@ -82,3 +93,5 @@ Print Assumptions dpcm16_stream_roundtrip_exact.
 Print Assumptions dpcm16_int_roundtrip_exact_when_low_bits_zero.
 Print Assumptions dpcm8_short_roundtrip_exact_when_low_bits_zero.
 Print Assumptions dpcm8_int_roundtrip_keeps_top_byte.
+Print Assumptions sds_pack_roundtrip.
+Print Assumptions sds_lossless_for_the_subtype.
